@@ -38,6 +38,15 @@ def run(ctx, which):
                 ex, obs = add_to_ctx(ctx, c, callees)
                 n += len(obs)
             continue
+        if name == "factorize_offset":
+            from . import finalize_proofs
+
+            finalize_proofs._patch()
+            c, callees = F.factorize_offset_contract()
+            c.prefix = ctx.pid + c.prefix[3:]
+            ex, obs = add_to_ctx(ctx, c, callees)
+            n += len(obs)
+            continue
         if name == "convert":
             from . import finalize_proofs
 
